@@ -19,13 +19,13 @@ def qpi (s : Stack) : List (Nat × Out) × List (Dest × List SDEntry) × List C
 @[simp] theorem qpi_with_draws (s : Stack) (x : List Nat) : qpi { s with draws := x } = qpi s := rfl
 @[simp] theorem qpi_with_incoming (s : Stack) (x : Incoming) : qpi { s with incoming := x } = qpi s := rfl
 @[simp] theorem qpi_with_outgoing (s : Stack) (x : Outgoing) : qpi { s with outgoing := x } = qpi s := rfl
-@[simp] theorem qpi_with_tasks (s : Stack) (x : List (Nat × TaskSt)) : qpi { s with tasks := x } = qpi s := rfl
-@[simp] theorem qpi_with_nextTid (s : Stack) (x : Nat) : qpi { s with nextTid := x } = qpi s := rfl
+@[simp] theorem qpi_with_tasks (s : Stack) (x : List (Tid × TaskSt)) : qpi { s with tasks := x } = qpi s := rfl
 @[simp] theorem qpi_with_watched (s : Stack) (x : List (Service × List Listener)) : qpi { s with watched := x } = qpi s := rfl
 @[simp] theorem qpi_with_watchAll (s : Stack) (x : List LId) : qpi { s with watchAll := x } = qpi s := rfl
 @[simp] theorem qpi_with_found (s : Stack) (x : TStore SvcKey) : qpi { s with found := x } = qpi s := rfl
 @[simp] theorem qpi_with_storeLog (s : Stack) (x : List (Bool × SvcKey × Addr)) : qpi { s with storeLog := x } = qpi s := rfl
 @[simp] theorem qpi_with_sendLog (s : Stack) (x : List (Dest × (Bool × Nat))) : qpi { s with sendLog := x } = qpi s := rfl
+@[simp] theorem qpi_with_subLog (s : Stack) (x : List (Addr × Nat × List Eventgroup)) : qpi { s with subLog := x } = qpi s := rfl
 @[simp] theorem qpi_with_findTask (s : Stack) (x : Option Nat) : qpi { s with findTask := x } = qpi s := rfl
 @[simp] theorem qpi_with_alive (s : Stack) (x : Bool) : qpi { s with alive := x } = qpi s := rfl
 @[simp] theorem qpi_with_subTask (s : Stack) (x : Option Nat) : qpi { s with subTask := x } = qpi s := rfl
@@ -33,7 +33,6 @@ def qpi (s : Stack) : List (Nat × Out) × List (Dest × List SDEntry) × List C
 @[simp] theorem qpi_with_started (s : Stack) (x : Bool) : qpi { s with started := x } = qpi s := rfl
 @[simp] theorem qpi_with_instances (s : Stack) (x : List Instance) : qpi { s with instances := x } = qpi s := rfl
 @[simp] theorem qpi_with_announceOrder (s : Stack) (x : List Nat) : qpi { s with announceOrder := x } = qpi s := rfl
-@[simp] theorem qpi_with_tasks_nextTid (s : Stack) (x : List (Nat × TaskSt)) (y : Nat) : qpi { s with tasks := x, nextTid := y } = qpi s := rfl
 @[simp] theorem qpi_with_outgoing_sendLog (s : Stack) (x : Outgoing) (y : List (Dest × (Bool × Nat))) : qpi { s with outgoing := x, sendLog := y } = qpi s := rfl
 
 theorem qpi_emit_other (s : Stack) (o : Out) (h : isQueued o = false) : qpi (s.emit o) = qpi s := by
@@ -61,10 +60,10 @@ theorem qpi_callLater (s : Stack) (d : Nat) (cb : Cb) (h : isCollTimeout cb = fa
 @[simp] theorem qpi_callLater_sendStopSubscribe (s : Stack) (d : Nat) (d' : Addr) (e : List Eventgroup) : qpi (s.callLater d (.sendStopSubscribe d' e)).1 = qpi s := qpi_callLater _ _ _ rfl
 @[simp] theorem qpi_callSoon_sendOfferTo (s : Stack) (i : Nat) (a : Addr) : qpi (s.callSoon (.sendOfferTo i a)) = qpi s := qpi_callSoon _ _ rfl
 @[simp] theorem qpi_callLater_sendOfferTo (s : Stack) (d : Nat) (i : Nat) (a : Addr) : qpi (s.callLater d (.sendOfferTo i a)).1 = qpi s := qpi_callLater _ _ _ rfl
-@[simp] theorem qpi_callSoon_taskStep (s : Stack) (t : Nat) : qpi (s.callSoon (.taskStep t)) = qpi s := qpi_callSoon _ _ rfl
-@[simp] theorem qpi_callLater_taskStep (s : Stack) (d : Nat) (t : Nat) : qpi (s.callLater d (.taskStep t)).1 = qpi s := qpi_callLater _ _ _ rfl
-@[simp] theorem qpi_callSoon_sleepDone (s : Stack) (t : Nat) : qpi (s.callSoon (.sleepDone t)) = qpi s := qpi_callSoon _ _ rfl
-@[simp] theorem qpi_callLater_sleepDone (s : Stack) (d : Nat) (t : Nat) : qpi (s.callLater d (.sleepDone t)).1 = qpi s := qpi_callLater _ _ _ rfl
+@[simp] theorem qpi_callSoon_taskStep (s : Stack) (t : Tid) : qpi (s.callSoon (.taskStep t)) = qpi s := qpi_callSoon _ _ rfl
+@[simp] theorem qpi_callLater_taskStep (s : Stack) (d : Nat) (t : Tid) : qpi (s.callLater d (.taskStep t)).1 = qpi s := qpi_callLater _ _ _ rfl
+@[simp] theorem qpi_callSoon_sleepDone (s : Stack) (t : Tid) : qpi (s.callSoon (.sleepDone t)) = qpi s := qpi_callSoon _ _ rfl
+@[simp] theorem qpi_callLater_sleepDone (s : Stack) (d : Nat) (t : Tid) : qpi (s.callLater d (.sleepDone t)).1 = qpi s := qpi_callLater _ _ _ rfl
 
 theorem qpi_cancelTimer_other (s : Stack) (own : Cb → Bool) (t : Option Nat) (h : ∀ cb, own cb = true → isCollTimeout cb = false) :
     qpi (s.cancelTimer own t) = qpi s := by
@@ -112,7 +111,7 @@ theorem qpi_cancelTimer_other (s : Stack) (own : Cb → Bool) (t : Option Nat) (
   · exact qpi_callLater _ _ _ rfl
   · rfl
 @[simp] theorem qpi_setInst (s : Stack) (i : Nat) (x : Instance) : qpi (s.setInst i x) = qpi s := rfl
-@[simp] theorem qpi_setTask (s : Stack) (i : Nat) (x : TaskSt) : qpi (s.setTask i x) = qpi s := rfl
+@[simp] theorem qpi_setTask (s : Stack) (i : Tid) (x : TaskSt) : qpi (s.setTask i x) = qpi s := rfl
 
 @[simp] theorem qpi_sendSd (s : Stack) (es : List SDEntry) (d : Dest) : qpi (s.sendSd es d) = qpi s := by
   unfold sendSd; split; rfl; simp only []; split
@@ -123,12 +122,12 @@ theorem qpi_cancelTimer_other (s : Stack) (own : Cb → Bool) (t : Option Nat) (
 
 @[simp] theorem qpi_createTask (s : Stack) (k : TaskKind) : qpi (s.createTask k).1 = qpi s := by
   unfold createTask; simp
-@[simp] theorem qpi_cancelTask (s : Stack) (t : Nat) : qpi (s.cancelTask t) = qpi s := by
+@[simp] theorem qpi_cancelTask (s : Stack) (t : Tid) : qpi (s.cancelTask t) = qpi s := by
   unfold cancelTask; split; rfl; split; rfl; split <;> simp
-@[simp] theorem qpi_sleepFor (s : Stack) (tid : Nat) (t : TaskSt) (d : Nat) (pc : Pc) : qpi (s.sleepFor tid t d pc) = qpi s := by
+@[simp] theorem qpi_sleepFor (s : Stack) (tid : Tid) (t : TaskSt) (d : Nat) (pc : Pc) : qpi (s.sleepFor tid t d pc) = qpi s := by
   unfold sleepFor; split <;> simp
-@[simp] theorem qpi_finish (s : Stack) (tid : Nat) (t : TaskSt) : qpi (s.finish tid t) = qpi s := rfl
-@[simp] theorem qpi_sleepDone (s : Stack) (tid : Nat) : qpi (s.sleepDone tid) = qpi s := by
+@[simp] theorem qpi_finish (s : Stack) (tid : Tid) (t : TaskSt) : qpi (s.finish tid t) = qpi s := rfl
+@[simp] theorem qpi_sleepDone (s : Stack) (tid : Tid) : qpi (s.sleepDone tid) = qpi s := by
   unfold sleepDone; split; rfl; split <;> simp
 
 @[simp] theorem qpi_instStart (s : Stack) (i : Nat) : qpi (s.instStart i) = qpi s := by
@@ -191,7 +190,7 @@ theorem qpi_cancelTimer_other (s : Stack) (own : Cb → Bool) (t : Option Nat) (
   unfold subscriberStop; split; rfl
   simp only []
   have h1 : qpi (match ({ s with alive := false } : Stack).subTask with
-      | some tid => { ({ s with alive := false } : Stack).cancelTask tid with subTask := none }
+      | some tid => { ({ s with alive := false } : Stack).cancelTask (.subscribe, tid) with subTask := none }
       | none => ({ s with alive := false } : Stack)) = qpi s := by
     split
     · show qpi (({ s with alive := false } : Stack).cancelTask _) = qpi s; rw [qpi_cancelTask]; rfl
@@ -200,7 +199,7 @@ theorem qpi_cancelTimer_other (s : Stack) (own : Cb → Bool) (t : Option Nat) (
   · rw [foldl_pres qpi _ (fun s p => by simp)]; exact h1
   · exact h1
 
-@[simp] theorem qpi_stepSubscribe (s : Stack) (tid : Nat) (t : TaskSt) : qpi (s.stepSubscribe tid t) = qpi s := by
+@[simp] theorem qpi_stepSubscribe (s : Stack) (tid : Tid) (t : TaskSt) : qpi (s.stepSubscribe tid t) = qpi s := by
   unfold stepSubscribe
   simp only []
   have key : ∀ st : Stack, qpi (List.foldl (fun s p => s.sendSubscribe s.tm.subscribeTtl p.1 p.2) st (groupEntries st.subEntries)) = qpi st :=
@@ -232,7 +231,7 @@ theorem qpi_cancelTimer_other (s : Stack) (own : Cb → Bool) (t : Option Nat) (
   · simp
   · rw [qpi_replay]; rfl
 
-@[simp] theorem qpi_stepFind (s : Stack) (tid : Nat) (t : TaskSt) : qpi (s.stepFind tid t) = qpi s := by
+@[simp] theorem qpi_stepFind (s : Stack) (tid : Tid) (t : TaskSt) : qpi (s.stepFind tid t) = qpi s := by
   unfold stepFind; frame_cases
 
 @[simp] theorem qpi_discoveryStart (s : Stack) : qpi s.discoveryStart = qpi s := by
